@@ -310,6 +310,13 @@ def weave(reg, cur_toks):
                 return j1 + (k - i1) if tag == 'equal' else j1
         return len(C)
 
+    def eq_image(k):
+        """index in C of E[k] if that token survived the edit unchanged, else None"""
+        for (tag, i1, i2, j1, j2) in ops:
+            if i1 <= k < i2:
+                return j1 + (k - i1) if tag == 'equal' else None
+        return None
+
     def unchanged(a, b):
         """E[a:b] maps onto a contiguous identical run of C"""
         if a == b:
@@ -341,7 +348,14 @@ def weave(reg, cur_toks):
     for si, seg in enumerate(reg.segs):
         a = seg_start[si]
         if seg['kind'] == 'annot':
-            j = image(a)
+            # an annotation sits between two code tokens.  It is re-attached only where at least one of them survived the edit unchanged
+            # (before the surviving successor, else after the surviving predecessor); where both neighbours were edited or deleted the anchor is
+            # lost and the unit is UNDECIDED - guessing a place would turn a harmless restructuring into failed obligations (an alarm)
+            nxt = len(C) if a >= len(E) else eq_image(a)
+            prv = -1 if a == 0 else eq_image(a - 1)
+            if nxt is None and prv is None:
+                raise Undecided('REWEAVE-ANCHOR: the code on both sides of an annotation of %s was edited; annotation: %s' % (reg.name, ' '.join(seg['text'].split())[:160]))
+            j = nxt if nxt is not None else prv + 1
             inserts.setdefault(j, []).append(seg)
         elif seg['kind'] == 'rw':
             b = a + counts.get(si, 0)
